@@ -834,6 +834,18 @@ impl Session {
     }
 }
 
+/// Verification hooks (feature `verif`): thin public wrappers over crate-private session methods.
+#[cfg(feature = "verif")]
+impl Session {
+    pub fn verif_post_recv(&mut self, rx_header: &PacketHdr) -> Result<bool, Error> {
+        self.post_recv(rx_header)
+    }
+
+    pub fn verif_set_session_mode(&mut self, mode: SessionMode) {
+        self.set_session_mode(mode)
+    }
+}
+
 impl fmt::Display for Session {
     fn fmt(&self, f: &mut fmt::Formatter<'_>) -> fmt::Result {
         write!(
